@@ -89,6 +89,14 @@ CLAIMS = {
           "findings (each with a concrete panicking input). This is the for-all-inputs statement tests cannot make.",
   "note": "Assumptions: 64-bit usize; allocation failure/capacity overflow/stack exhaustion excluded; A1 fewer than 2^32-1 samples per track / fragments per muxer; A2 live buffers total < 2^62 bytes. Trusted: the entailment engine (lib/mx/absint.py), "
           "the classification of panicking std callees, the lemma side-condition checkers. `Promptly`: loops are bounded by buffer lengths or constants; a loop bounded only by an input's magnitude is reported. Panics inside dependencies that are not caused by a violated documented precondition are out of scope."},
+ "C16": {
+  "technique": "value-losing conversion inventory on MIR (narrowing/sign-changing int casts, float->int casts, bit-dropping constant shifts) discharged by operand intervals and dominating-guard entailment (C12 engine) or reported",
+  "text": "Decides the necessary structural condition of C16 for every input at once: each of the ~160 value-losing conversions reachable from the public surface either provably keeps its operand inside the target type "
+          "(constants, bit masks, field intervals of crate-built structs, callee postconditions, constant widths of byte producers, exact lengths of straight-line-built descriptors, guards whose other arm returns an error; record counts under A1; "
+          "queued sample sizes by the guard at every push) or is reported. On the current tree 106 are discharged and 53 are genuine unguarded truncations listed as known findings with boundary-crossing inputs (durations, composition offsets, "
+          "parameter-set lengths, dimensions, sample rate, channel count, box/fragment sizes, f64 tick saturation). A new unguarded narrowing, a weakened or removed range guard, or a narrowed intermediate is a violation.",
+  "note": "Decides that no conversion loses bits silently; does not decide that the wide value is the mathematically right one (C01-C03, C08 own the formulas). A cast protected only by the always-on invariant macro (panic) stays listed. "
+          "Clamping conversions (try_from(..).unwrap_or / min) are not inventoried. Assumptions: 64-bit usize; A1 fewer than 2^32-1 records per table."},
  "C11": {
   "technique": "layout interpretation of the media-segment and init-segment builders + MIR slices in flush_segment",
   "text": "trun per-sample fields have the required operator shape (duration = next.dts - this.dts, cts = pts - dts signed, flags constants with the non-sync bit exactly on the non-sync arm, size = len(data)); tfdt/trun are version 1; the base decode time handed to the builder depends on the segment's own samples (defect found and repaired: it was estimated from the previous segment); "
